@@ -217,6 +217,26 @@ fn migration_leg(acc: &mut Acc, rounds: usize) {
     let _ = worker.join();
 }
 
+fn stress_facts(round: usize, t: usize) -> reval::prelude::Value {
+    use reval::prelude::Value;
+    // `other` (and ts2/num2) are the same never-seen-before values for all threads of a round,
+    // the rest is distinct per thread
+    let sec = |x: usize| format!("2024-01-{:02}T{:02}:{:02}:{:02}Z", 1 + x % 28, x / 3600 % 24, x / 60 % 60, x % 60);
+    Value::Map(
+        [
+            ("id".to_string(), Value::Int((100_000 + round * 8 + t) as i128)),
+            ("other".to_string(), Value::Int(round as i128)),
+            ("ts".to_string(), Value::String(sec(round * 8 + t))),
+            ("ts2".to_string(), Value::String(sec(1_000_000 + round))),
+            ("num".to_string(), Value::String(format!("{}", round * 8 + t))),
+            ("num2".to_string(), Value::String(format!("{round}"))),
+            ("name".to_string(), Value::String(format!("name-{t}-{round}"))),
+        ]
+        .into_iter()
+        .collect(),
+    )
+}
+
 /// Free-running stress on real OS threads.  NOT part of the deciding exploration (it samples
 /// schedules); it is here because synchronisation primitives *inside* reval would be invisible to
 /// loom.  A mismatch it finds is real (the baseline comes from an identically built ruleset that
@@ -228,7 +248,7 @@ fn stress_leg(acc: &mut Acc, rounds: usize) {
     use std::collections::BTreeMap;
     use std::sync::{Arc, Barrier};
     let h: Handler = Arc::new(move |name, p| (Ok(Value::Vec(vec![Value::String(name.to_string()), p])), 1));
-    let texts = ["c(other)", "c(id)", "[n(id), c(id), c(i7), c(other + i1000000)]", "c(id) == c(other)", "if id > other then c(other) else c(id + other)"];
+    let texts = ["c(other)", "c(id)", "[n(id), c(id), c(i7), c(other + i1000000)]", "c(id) == c(other)", "if id > other then c(other) else c(id + other)", "datetime(ts)", "[year(datetime(ts)), second(datetime(ts)), datetime(ts2)]", "int(num) + int(num2)", "uppercase(name)"];
     let build = || {
         let mut b = ruleset();
         for (i, t) in texts.iter().enumerate() {
@@ -241,7 +261,7 @@ fn stress_leg(acc: &mut Acc, rounds: usize) {
     let threads = 8usize;
     let barrier = Arc::new(Barrier::new(threads));
     // `other` is the same never-seen-before value for all threads of a round, `id` is distinct
-    let facts = |round: usize, t: usize| Value::Map([("id".to_string(), Value::Int((100_000 + round * threads + t) as i128)), ("other".to_string(), Value::Int(round as i128))].into_iter().collect());
+    let facts = |round: usize, t: usize| stress_facts(round, t);
     let eval = |rs: &RuleSet, f: &Value| -> Vec<Obs> {
         match crate::engine::exec::block_on(rs.evaluate_value(f)) {
             Ok(Ok(o)) => o.into_iter().map(|x| observe(Ok(x.value))).collect(),
@@ -255,7 +275,7 @@ fn stress_leg(acc: &mut Acc, rounds: usize) {
             let mut out = Vec::new();
             for round in 0..rounds {
                 barrier.wait();
-                let f = Value::Map([("id".to_string(), Value::Int((100_000 + round * 8 + t) as i128)), ("other".to_string(), Value::Int(round as i128))].into_iter().collect());
+                let f = stress_facts(round, t);
                 let o: Vec<Obs> = match crate::engine::exec::block_on(rs.evaluate_value(&f)) {
                     Ok(Ok(o)) => o.into_iter().map(|x| observe(Ok(x.value))).collect(),
                     other => vec![Obs::Panic(format!("{:?}", other.map(|_| ())))],
